@@ -170,6 +170,57 @@ inconsistent for the network: see known_findings.txt key route/stale-link-after-
 `_partial` form (Dijkstra; `SearchDiscipline.route_links_fresh_of_heur` extends it to every
 consistent vertex heuristic). -/
 
+
+/-! ### The stale-link counterexample (recorded finding `route/stale-link-after-reopening`)
+
+The 5-vertex witness of harness/src/searchprops.rs `stale_link_witness(false)`, over ℚ: vertices
+s=0, w=1, u=2, v=3, t=4; great-circle distances to t (data) 7000, 6000, 5000, 5200, 0; edge lengths
+far below them, so the A* estimate (weight factor 1) is inconsistent for this network; a 2000 s delay
+on the right turn (w→u, u→v).  Schedule: s, u, w, u again (re-opened), v, t. -/
+
+def staleConfig : Config ℚ where
+  nV := 5
+  edges := [⟨0, 2, 1000⟩, ⟨0, 1, 100⟩, ⟨1, 2, 100⟩, ⟨2, 3, 100⟩, ⟨3, 4, 100⟩]
+  outAdj := [[0, 1], [2], [3], [4], []]
+  inAdj := [[], [1], [0, 2], [3], [4]]
+  feats := [{ name := "distance", kind := .dist .meters, init := 0 },
+            { name := "time", kind := .time .seconds, init := 0 }]
+  trav := .distance .meters
+  access := .turnDelay .seconds [(90, some 90), (0, some 0), (0, some 0), (90, some 90), (90, some 90)]
+    [some 0, some 0, some 0, some 2000, some 0, some 0, some 0, some 0]
+  cost := { indices := [0, 1], weights := [1, 1], vehicleRates := [.raw, .raw],
+            networkRates := [.zero, .zero], agg := .sum }
+  frontier := []
+  term := .combined []
+  reverse := false
+  gc := [7000, 6000, 5000, 5200, 0]
+  wf := some 1
+
+/-- (edge, reported state) along the route of a result -/
+def routeStatesOf (r : Except ErrKind (AlgResult ℚ)) : Option (List (List (Nat × List ℚ))) :=
+  match r with
+  | .ok res => some (res.routes.map (·.map (fun b => (b.edge, b.state))))
+  | .error _ => none
+
+/-- A* returns the route s→w→u→v→t whose third element reports distance 1100 and time 0 … -/
+theorem stale_link_counterexample :
+    routeStatesOf (staleConfig.runVertex 0 (some 4) [0, 2, 1, 2, 3, 4]) =
+      some [[(1, [100, 0]), (2, [200, 0]), (3, [1100, 0]), (4, [1200, 0])]] := by
+  decide +kernel
+
+/-- … although traversing edge 3 (u→v) after edge 2 (w→u) from the state the route reports there
+accumulates to distance 300 and time 2000: the reported state is not the route's accumulation. -/
+theorem stale_link_true_accumulation :
+    (edgeTraversal staleConfig 3 (some 2) [200, 0]).toOption.map (·.2.2) = some [300, 2000] := by
+  decide +kernel
+
+/-- The same configuration under Dijkstra (weight factor 0) returns a route whose states accumulate
+(an instance of `dijkstra_route_accumulates`): s→w→u→v→t, the turn delay charged on u→v. -/
+theorem stale_link_absent_under_dijkstra :
+    routeStatesOf (({ staleConfig with wf := some 0 } : Config ℚ).runVertex 0 (some 4) [0, 1, 2, 3, 4]) =
+      some [[(1, [100, 0]), (2, [200, 0]), (3, [300, 2000]), (4, [400, 2000])]] := by
+  decide +kernel
+
 /-! ### Non-vacuity -/
 example : addDistance [⟨"distance", .dist .meters, (0 : ℚ)⟩] [5] "distance" 2 .meters = some [7] := by
   decide +kernel
